@@ -457,7 +457,10 @@ def accumulation(chk, prog, cfg):
             owner = mir.strip_generics(m[1].path)
             if m[0] == "call":
                 key = (owner, m[3])
-                chk.expect(key in allow or (m[3] in {a[1] for a in allow} and who.owner_ok(prog, owner, {a[0] for a in allow})), "R17.3", "write:%s.%s:%s:%s" % (adt.split("::")[-1], field, owner.split("::")[-1], m[3].split("::")[-1]),
+                # appending operations: what is appended is decided by the scenario runs below, here only *who* appends and that nothing else is done
+                APPEND = {"alloc::vec::Vec::push", "<alloc::vec::Vec as core::iter::traits::collect::Extend>::extend", "alloc::vec::Vec::extend_from_slice"}
+                owners_ = {a[0] for a in allow}
+                chk.expect(key in allow or (m[3] in APPEND and (owner in owners_ or who.owner_ok(prog, owner, owners_))), "R17.3", "write:%s.%s:%s:%s" % (adt.split("::")[-1], field, owner.split("::")[-1], m[3].split("::")[-1]),
                            m[1].where(m[2]), "%s.%s mutated by %s in %s" % (adt.split("::")[-1], field, m[3], owner), cfg)
             else:
                 chk.fail("R17.3", "write:%s.%s:%s:%s" % (adt.split("::")[-1], field, owner.split("::")[-1], m[0]), m[1].where(m[2]),
